@@ -154,6 +154,32 @@ def run(ctx):
     ctx.prove(["PvModel.Props.C04", "PvModel.Props.T04"])
     run_suite(ctx, "C04")
     termination_probe(ctx)
+    real_runs(ctx)
+
+
+def real_runs(ctx):
+    """"observationally, for all optimizers × tasks × seeds": every class, a few runs with each kind of criterion armed; judged by `oracles.check_c04`."""
+    from .. import trace, optimizers, oracles
+    rng = ctx.rng
+    ctx.suites_run.append(oracles.SUITE)
+    ctx.rule("real runs: every optimizer × {budget only, fitness_error near the rates it reaches, early stopping (patience 1..3 × min_delta 1e-4..10)} × min/max × serial(/thread): "
+             "shape, budget, rate = |1 − mean fitness| bit-exact, stop cycle = first cycle of the declarative criterion over the reported rates")
+    js = []
+    for name in optimizers.names():
+        for i in range(3 if not ctx.thorough else 10):
+            cfg = {"max_cycles": rng.choice([1, 2, 4, 7, 12])}
+            cfg["fitness_error"] = rng.choice([None, 0.0, 0.2, 0.5, 0.9, 0.99, 5.0])
+            if rng.random() < 0.6:
+                cfg["early_stopping"] = {"patience": rng.choice([1, 1, 2, 3]), "min_delta": rng.choice([1e-4, 0.01, 0.1, 1.0, 10.0])}
+            kind = rng.choice(trace.CONT_KINDS)
+            js.append({"name": name, "kind": kind, "specs": trace.task_specs(rng, kind, rng.choice([1, 2, 3, 5])), "objective": rng.choice(["sphere", "linear", "rastrigin"]),
+                       "minmax": rng.choice(["min", "max"]), "seed": rng.randrange(1, 10 ** 6), "cfg": cfg, "mode": rng.choice(["serial", "serial", "thread"]), "trace": False})
+    results = pmap(trace.run_traced, js)
+    for r in results:
+        ok = "result" in r
+        n = len(r["result"]["rates"]) if ok else 0
+        ctx.case(repr(oracles.job_key(r["job"])), nontrivial=ok and n >= 1, kind=f"real:{'ok' if ok else 'raised'}:{'budget' if ok and n >= r['job']['cfg']['max_cycles'] else 'criterion'}")
+    oracles.check_c04(ctx, results)
 
 
 def termination_probe(ctx):
